@@ -64,3 +64,38 @@ func init() {
 		Rules: []Rule{RuleCPosting, RuleCPostings, RuleJPair, RuleCValue, RuleJValuation, RuleKDayTx, RuleKInsert, RuleKDelta},
 	})
 }
+
+func init() {
+	claim(&Property{
+		ID: "C04",
+		Decides: []string{
+			"(D-process-order) in the day processor no path leads from a later kind's loop to an earlier kind's (prices, opens, transactions, assertions, closes); DayStart runs before and DayEnd after all of them;",
+			"(K-sorted-days, K-fifo) Journal.Days is only assigned a slice sorted by a comparator that reads Day.Date, and no stage of cpr.Seq spawns goroutines per item, so days are evaluated in ascending order;",
+			"(K-proc-literal, D-open-close) the checker's processor binds Open, Posting, Balance and Close; open adds to and close removes from the set of open accounts on every success path, and all four callbacks consult that set before succeeding (sibling agreement);",
+			"(D-check-first) every command that loads a journal runs the checker in its first Process call, before any stage that looks at openings, transactions, assertions or closings;",
+			"(C-sparse) no branch depends on the presence bit of a sparse Amounts entry (absent means zero).",
+		},
+		NotDecided: []string{
+			"the iff itself: the comparison of quantities in assertions, the zero test on close, the text of diagnostics;",
+			"assertions on non asset/liability accounts (the checker tracks quantities only for A/L accounts).",
+		},
+		Rules: []Rule{RuleDProcessOrder, RuleKSortedDays, RuleKFifo, RuleDOpenClose, RuleDCheckFirst, RuleCSparse},
+	})
+}
+
+func init() {
+	claim(&Property{
+		ID: "C05",
+		Decides: []string{
+			"(D-process-order, K-sorted-days) the evaluation skeleton that makes arrival order irrelevant: fixed intra-day kind order, days sorted by date;",
+			"(A-arrival, A-order, A-stage) no arrival order reaches stdout: the per-file batches reach the builder in path order, and every unordered iteration on the way to the output is order-free or sorted;",
+			"(D-include-path) include paths are Join(Dir(file being parsed), include text);",
+			"(D-push-once) each parsed file is pushed exactly once on every success path, and each cpr.Seq stage forwards each day exactly once.",
+		},
+		NotDecided: []string{
+			"byte equality of reports under permutation of the directives (no execution);",
+			"commutativity of the checker callbacks within one kind on one day (two opens, or two assertions, of one day are evaluated in arrival order; the verdict does not depend on it for journals the property admits, argued informally only).",
+		},
+		Rules: []Rule{RuleDProcessOrder, RuleKSortedDays, RuleAArrival, RuleAOrder, RuleDIncludePath, RuleDPushOnce},
+	})
+}
